@@ -8,6 +8,8 @@
    request has action index = length of the script), the nesting tag d (0 = the
    script's own call; lid = inside the event a re-entrant listener lid emitted
    from within its call), and whether it ran on the goroutine of the callback.
+   Only messages published on the connection object the service is CURRENTLY served on are log
+   entries (restart cases serve the same service a second time on a new connection object).
    Every listener also KEEPS the *Event pointer it was given; [g_reread] is what
    those pointers show at the end of the group (one record per listener entry of
    the log, in log order) and [g_cb_same] whether they still showed the delivered
@@ -25,7 +27,10 @@ Record gcase := GC {
   (* per callback: the panic value a With callback recovered: (code of a *res.Error or [], text) *)
   g_panics : list (option (bytes * bytes));
   g_reread : list evrec;
-  g_cb_same : list bool }.
+  g_cb_same : list bool;
+  (* (callback, action) that was executing when a message was published on a connection object
+     other than the one the service is currently served on (restart cases) *)
+  g_stale : list (N * N) }.
 
 (* ---- the model's log with the same tags ---- *)
 Fixpoint tag_script (cx : ctx) (ty : rtype) (rid : bytes) (ls : list lst) (replied : bool) (i : N)
@@ -210,13 +215,16 @@ Fixpoint dedup (l : list N) : list N :=
    10 the handler went on after a call that has to panic (invalid call / failed apply / panicking reaction)
    11 an event record handed to a listener was changed after delivery (the retained *Event no
       longer shows what the listener saw, at the end of the callback or of the group)
-   12 the effects of a re-entrant listener's event are not nested inside that listener's call *)
+   12 the effects of a re-entrant listener's event are not nested inside that listener's call
+   13 a message of the current serve cycle was published on another connection object than the one
+      the service is served on (so it does not appear on the connection; also shows as 9 / M1) *)
 Definition viol_case (c : gcase) : list N :=
   dedup (viol_cbs 0 (gc_cbs c) (g_log c) ++
          (if forallb (fun x : entry => let '(_, _, _, g, _) := x in g) (g_log c) then [] else [5]) ++
          (if tags_sorted 0 0 (g_log c) && forallb (in_range (gc_cbs c)) (g_log c) then [] else [6]) ++
          (if list_eqb evrec_eqb (delivered (g_log c)) (g_reread c) && forallb (fun b : bool => b) (g_cb_same c)
-          then [] else [11])).
+          then [] else [11]) ++
+         (if is_nil (g_stale c) then [] else [13])).
 
 Fixpoint run_idx {A} (f : A -> list N) (i : N) (cs : list A) : list (N * N) :=
   match cs with
